@@ -194,3 +194,7 @@ mod unicodetables;
 
 #[cfg(feature = "backend-pikevm")]
 mod pikevm;
+
+#[cfg(feature = "verif-hooks")]
+#[doc(hidden)]
+pub mod verif;
